@@ -6,6 +6,7 @@ import (
 
 	"github.com/pion/interceptor"
 	"github.com/pion/interceptor/verifharness/kit"
+	"github.com/pion/rtcp"
 	"github.com/pion/rtp"
 )
 
@@ -90,6 +91,33 @@ func TestRegressSecondCloseDoesNotPanic(t *testing.T) {
 				kit.WriteReplay("TestRegressSecondCloseDoesNotPanic", []byte(`{"member":"`+name+`","ops":["BindRTCPWriter","BindLocalStream 0x6001","Close","Close"]}`))
 				t.Fatalf("%s: Close call %d: %s", name, i, o)
 			}
+		}
+	}
+}
+
+// TestRegressResponderCloseWaitsForRetransmissions: 17 packets sent through a slow transport, a NACK for all of them read, then Close:
+// no retransmission may still be in progress when Close returns.
+func TestRegressResponderCloseWaitsForRetransmissions(t *testing.T) {
+	for round := 0; round < 30; round++ {
+		m := kit.NewMember("nack-responder", interval)
+		ic, _ := m.Factory.NewInterceptor("x")
+		sink := &kit.RTPSink{HoldSleep: 200 * time.Microsecond}
+		w := ic.BindLocalStream(kit.LocalInfo(0x6001, twccID, true, true), sink)
+		src := &kit.ByteSource{}
+		rr := ic.BindRTCPReader(src)
+		for i := 0; i < 17; i++ {
+			_, _ = w.Write(&rtp.Header{Version: 2, SSRC: 0x6001, SequenceNumber: uint16(100 + i)}, []byte{1, 2, 3}, nil) //nolint:gosec
+		}
+		raw, _ := rtcp.Marshal([]rtcp.Packet{&rtcp.TransportLayerNack{SenderSSRC: 9, MediaSSRC: 0x6001, Nacks: []rtcp.NackPair{{PacketID: 100, LostPackets: 0xffff}}}})
+		src.Push(raw)
+		_, _, _ = rr.Read(make([]byte, 1500), interceptor.Attributes{})
+		time.Sleep(time.Duration(round*40) * time.Microsecond)
+		if o := kit.Guard(0, func() { _ = ic.Close() }); !o.OK() {
+			t.Fatalf("Close: %s", o)
+		}
+		if n := sink.InFlight(); n > 0 {
+			kit.WriteReplay("TestRegressResponderCloseWaitsForRetransmissions", []byte(`{"member":"nack-responder","ops":["BindLocalStream 0x6001","17 writes","NACK 100..116","Close"]}`))
+			t.Fatalf("round %d: Close returned while %d retransmission(s) were still being written", round, n)
 		}
 	}
 }
